@@ -284,7 +284,7 @@ def run(ctx):
     ctx.coverage['exhaustive_scope'] = 'truncation lengths of the index file: all 0..len; data histories and logs: the listed / generated sets (not exhaustive)'
     ctx.trusted_base += ['Coq 8.16.1 kernel + vm_compute', 'extraction (ExtrOcamlBasic only), ocaml/conv.ml + c09_driver.ml',
                          'np.fromfile (whole records, partial tail ignored), ndarray.tofile, structured casts: modelled as little-endian u4/u2/u8 records',
-                         'fast_generate_index regeneration = index of the sequential scan (C08) with P1 times from the payload classes (parameter p1 of the model; values taken from the library in the run)',
+                         'fast_generate_index regeneration = index of the sequential scan: C08 theorem composed in Proofs/SystemLinkP.v (C09_fresh_is_fast_index, C09_open_via_fast_index) under the 16 KiB precondition; P1 times from the payload classes are a parameter (values taken from the library in the run)',
                          'hand transcription of FileIndex.load/save/_to_raw/_from_raw, fast_generate_index open path, MixedLogReader._read_next, held by correspondence',
                          'file system: no atomicity of the index write is assumed (every prefix of the saved file is a possible crash state)',
                          'translators/gen_fe.py, translators/gen_c09.py', 'harness/py/c09_impl.py, generators in props/c09.py and props/c18.py']
